@@ -54,14 +54,14 @@ def check(ctx):
     pops = sorted(const(c.args[0]) for c in calls(cf, "pop") if unparse(c.func.value) == "kwargs" and c.args)
     ok = pops == ["dask_key_name", "pure"] and all(dominates(cf, c, tok[0]) for c in calls(cf, "pop")) if tok else False
     ctx.ob("TOKFLOW.call.control-kwargs", cf, "only dask_key_name and pure are removed from kwargs (before naming)", ok, f"popped {pops}")
-    ok = any(Pat("Delayed(name, graph, length=nout)").match(r.value) is not None for r in returns(cf)) and bool(find("graph = HighLevelGraph.from_collections(name, {name: task}, dependencies=collections)", cf))
+    ok = (all(Pat("Delayed(name, graph, length=nout)").match(r.value) is not None for r in returns(cf)) and bool(returns(cf))) and bool(find("graph = HighLevelGraph.from_collections(name, {name: task}, dependencies=collections)", cf))
     ctx.ob("TOKFLOW.call.result", cf, "Delayed(name, graph over {name: task} with the argument collections as dependencies)", ok)
     # callers: DelayedLeaf / DelayedAttr
     leaf = mod.func("DelayedLeaf.__call__")
-    ok = any(Pat("call_function(self._obj, self._key, args, kwargs, pure=self._pure, nout=self._nout)").match(r.value) is not None for r in returns(leaf))
+    ok = (all(Pat("call_function(self._obj, self._key, args, kwargs, pure=self._pure, nout=self._nout)").match(r.value) is not None for r in returns(leaf)) and bool(returns(leaf)))
     ctx.ob("DELEG.leaf-call", leaf, "DelayedLeaf.__call__ -> call_function(obj, key-as-function-token, args, kwargs, pure, nout)", ok)
     da = mod.func("DelayedAttr.__call__")
-    ok = any(Pat("call_function(methodcaller(self._attr), self._attr, (self._obj,) + args, kwargs)").match(r.value) is not None for r in returns(da))
+    ok = (all(Pat("call_function(methodcaller(self._attr), self._attr, (self._obj,) + args, kwargs)").match(r.value) is not None for r in returns(da)) and bool(returns(da)))
     ctx.ob("DELEG.method-call", da, "DelayedAttr.__call__ -> methodcaller(attr) applied to (obj, *args)", ok)
     di = mod.func("DelayedAttr.__init__")
     ok = bool(find("key = f'getattr-{tokenize(obj, attr, pure=True)}'", di)) and bool(find("self._obj = obj", di)) and bool(find("self._attr = attr", di))
@@ -129,10 +129,10 @@ def check(ctx):
     ok = bool(find("method = delayed(right(op) if inv else op, pure=True)", gb))
     ctx.ob("ALG.operators.reflected", gb, "reflected operator = right(op) (operands swapped), pure", ok)
     sw = mod.func("_swap")
-    ok = any(Pat("method(other, self)").match(r.value) is not None for r in returns(sw)) and [a.arg for a in sw.args.args] == ["method", "self", "other"]
+    ok = (all(Pat("method(other, self)").match(r.value) is not None for r in returns(sw)) and bool(returns(sw))) and [a.arg for a in sw.args.args] == ["method", "self", "other"]
     ctx.ob("ALG.operators.swap", sw, "_swap(method, self, other) = method(other, self)", ok)
     rt = mod.func("right")
-    ok = any(Pat("partial(_swap, method)").match(r.value) is not None for r in returns(rt))
+    ok = (all(Pat("partial(_swap, method)").match(r.value) is not None for r in returns(rt)) and bool(returns(rt)))
     ctx.ob("ALG.operators.right", rt, "right(method) = partial(_swap, method)", ok)
 
     # ---------------- __iter__ / __len__
